@@ -129,7 +129,7 @@ def destination_writers(ctx, P, views, iters):
     for ci, fn, node, recv, how in rules.attr_writes(P, "destination"):
         n += 1
         ob.seen(rules.qual(ci, fn))
-        if fn.name not in allowed and not (ci and _helper_of(P, ci, fn, allowed)):
+        if not (rules.effective_names(P, ci, fn) & allowed) and not (ci and _helper_of(P, ci, fn, allowed)):
             ctx.violation(ob, "R1.destination-writer", rules.qual(ci, fn), unparse(node), "extra-writer",
                           "destination written outside the methods that fix / clear it (a blocked customer must keep its destination until released)", loc(node))
     ctx.floor("writes of destination", n, 4)
@@ -241,13 +241,25 @@ def records_append_only(ctx, P):
         n += 1
         q = rules.qual(ci, fn)
         ob.seen(q)
-        if how == "assign" and fn.name == "__init__":
+        if how == "assign" and "__init__" in rules.effective_names(P, ci, fn):
             continue
         if how != "append":
             ctx.violation(ob, "R1.records-append-only", q, unparse(node), "not-append", "data_records must only grow at the tail (list order is journey order)", loc(node))
-        elif fn.name not in RECORDERS:
+        elif not (rules.effective_names(P, ci, fn) & set(RECORDERS)):
             ctx.violation(ob, "R1.records-append-only", q, unparse(node), "extra-writer", "records appended outside the record writers", loc(node))
-    ctx.floor("data_records writes", n, 5)
+    ctx.floor("data_records writes", n, 2)
+    k = 0
+    for view in family_views(P, "Node"):
+        for m in RECORDERS:
+            r = view.resolve(m)
+            if r is None:
+                continue
+            if any(isinstance(x, ast.Call) and isinstance(x.func, ast.Attribute) and x.func.attr == "append" and isinstance(x.func.value, ast.Attribute) and x.func.value.attr == "data_records"
+                   for x in rules.walk(P, view, r[1])):
+                k += 1
+            else:
+                ctx.violation(ob, "R1.records-append-only", "%s.%s" % (r[0].name, m), "data_records.append", "writer-without-append", "the record writer does not append a record", loc(r[1]))
+    ctx.floor("record writers appending to data_records", k, 4)
 
 
 def same_instant(ctx, P, views, iters):
